@@ -214,7 +214,7 @@ def run_spec(spec, part, proxy):
 RACE_SPEC = ('int', 0, 9)
 
 
-def race_execute(prefix):
+def race_execute(prefix, activate=True):
     from vf.engines import schedx, fakesock
     from vf import nodes
     import frappy.client as C
@@ -236,6 +236,7 @@ def race_execute(prefix):
             lambda ssock: TCPRequestHandler(ssock, ('127.0.0.1', 4000), nodes.InterfaceStub(back)), 'backhandler'))
         mod = back.secnode.modules['m']
         client = C.SecopClient('tcp://node:10767', log=None)
+        client.activate = activate      # without activation the cache is written from the replies alone
         client.connect()
         sched.begin()
         for v in vals[:2]:
@@ -270,34 +271,34 @@ def race_trace():
     import inspect
     from vf.engines import schedx
     import frappy.client as C
-    funcs = [f for _n, f in inspect.getmembers(C.SecopClient, inspect.isfunction) if f.__code__.co_filename == C.__file__
-             and f.__name__ in ('_SecopClient__rxthread', 'updateValue', 'get_reply', 'request', 'setParameter', 'readParameter',
-                                '_handle_reply', '_SecopClient__txthread')]
-    funcs += [f for n, f in inspect.getmembers(C.SecopClient, inspect.isfunction) if f.__code__.co_filename == C.__file__
-              and n.startswith('_') and not n.startswith('__') and f not in funcs and 'reply' in n]
+    # every function of the client class that takes part in receiving a reply and handing it to the caller (helpers a change
+    # may split off included: everything whose name speaks of rx / reply / update / request / Parameter)
+    funcs = [f for n, f in inspect.getmembers(C.SecopClient, inspect.isfunction) if f.__code__.co_filename == C.__file__
+             and any(k in n.lower() for k in ('rxthread', 'reply', 'updatevalue', 'request', 'setparameter', 'readparameter'))]
     schedx.trace_lines(funcs)
 
 
-def race_root(_):
+def race_root(activate):
     from vf.engines import schedx
     race_trace()
-    x1, _v = race_execute([])
-    x2, _v = race_execute([])
+    x1, _v = race_execute([], activate)
+    x2, _v = race_execute([], activate)
     if x1.trace != x2.trace:
         raise core.Inconclusive('C12 e2e race: the default schedule is not deterministic')
     part = core.Part()
-    part.data.append(schedx.first_level(x1, 1, 0, 1))
+    part.data.append([activate, schedx.first_level(x1, 1, 0, 1)])
     part.extra['points_in_default_schedule'] += len(x1.points)
     return part
 
 
-def race_sub(prefix):
+def race_sub(shard):
     from vf.engines import schedx
+    activate, prefix = shard
     race_trace()
     part = core.Part()
 
     def ex(pfx):
-        x, viol = race_execute(pfx)
+        x, viol = race_execute(pfx, activate)
         part.evaluations += 1
         part.traces += 1
         part.transitions += x.steps
@@ -306,7 +307,8 @@ def race_sub(prefix):
             part.nontrivial += 1
         part.outcomes['race:' + ('ok' if not viol else viol[0][0])] += 1
         for sig, detail in viol:
-            part.violation(f'C12:{sig}', {'kind': 'e2e-race', 'prefix': list(x.choices)}, f'schedule {x.choices}: {detail}')
+            part.violation(f'C12:{sig}', {'kind': 'e2e-race', 'activate': activate, 'prefix': list(x.choices)},
+                           f'client {"activated" if activate else "not activated"}, schedule {x.choices}: {detail}')
         return x
     if prefix is None:
         ex([])
@@ -328,17 +330,19 @@ def run_e2e(ctx):
     ctx.pmap(e2e_fn, [(s, True) for s in (sp if ctx.tier == 'thorough' else sp[::3])], name='e2e_proxy')
     ctx.coverage.update(e2e_types=len(sp))
     # all schedules with <= 1 preemption at every source line of the client's receive / reply path
-    roots = ctx.pmap(race_root, [0], name='e2e_race_determinism')
-    prefixes = [None] + [p for plist in roots.data for p in plist]
+    roots = ctx.pmap(race_root, [True, False], name='e2e_race_determinism')
+    shards = []
+    for activate, plist in roots.data:
+        shards += [(activate, None)] + [(activate, p) for p in plist]
     ctx.total.data.clear()
-    ctx.pmap(race_sub, prefixes, name='e2e_race')
+    ctx.pmap(race_sub, shards, name='e2e_race')
 
 
 def replay_e2e(case):
     part = core.Part()
     if case.get('kind') == 'e2e-race':
         race_trace()
-        x, viol = race_execute(case['prefix'])
+        x, viol = race_execute(case['prefix'], case.get('activate', True))
         for sig, detail in viol:
             part.violation(f'C12:{sig}', case, detail)
         part.evaluations = 1
